@@ -817,6 +817,16 @@ func (h *Hashgraph) InsertFrameEvent(frameEvent *FrameEvent) error {
 		return err
 	}
 
+	// The wire info (creator ID, parent indexes) lives in private fields that
+	// do not survive the JSON transport of a Frame. Without it, ToWire produces
+	// a WireEvent with CreatorID 0 that no other node can read, so a node that
+	// adopted Events through a Frame could not serve them in a sync. Recompute
+	// it when the parents are known (FrameEvents are inserted in topological
+	// order); the first Events of a Root may have parents below the Frame.
+	if err := h.SetWireInfo(event); err != nil {
+		h.logger.WithError(err).Debug("InsertFrameEvent: wire info not set")
+	}
+
 	// Init EventCoordinates.
 	if err := h.initEventCoordinates(event); err != nil {
 		return fmt.Errorf("InitEventCoordinates: %s", err)
